@@ -213,13 +213,58 @@ Proof.
 Qed.
 
 (* ------------------------------------------------------------ rebuild *)
-Lemma readd_linked l : forall s, linked (rev l ++ s) -> readd s l = Some (rev l ++ s).
+(* a chain without the contract sends on its top (they have no receive yet: never re-added) *)
+Fixpoint strip (x : list block) : list block :=
+  match x with b :: r => if bsend b then strip r else x | [] => [] end.
+Lemma strip_app_closed x b y : bsend b = false -> strip (x ++ b :: y) = strip x ++ b :: y.
 Proof.
-  induction l as [|b l IH]; intros s H; [reflexivity|].
-  cbn [rev] in *. rewrite <- app_assoc in *. cbn [app] in *.
-  pose proof (linked_app _ _ H) as Hb. destruct Hb as [Hp _].
-  cbn [readd]. replace (ident_eqb (prev_of b) (frontier_id s)) with true by (symmetry; apply ident_eqb_eq; exact Hp).
-  apply IH. exact H.
+  intros Hb. induction x as [|c x IH]; cbn [app strip].
+  - rewrite Hb. reflexivity.
+  - destruct (bsend c); [exact IH|reflexivity].
+Qed.
+Lemma strip_sends x : Forall (fun b => bsend b = true) x -> strip x = [].
+Proof. induction 1 as [|c x Hc Hx IH]; [reflexivity|]. cbn [strip]. rewrite Hc. exact IH. Qed.
+Lemma strip_suffix x : exists d, x = d ++ strip x.
+Proof.
+  induction x as [|c x [d IH]]; [exists []; reflexivity|]. cbn [strip]. destruct (bsend c).
+  - exists (c :: d). cbn [app]. f_equal. exact IH.
+  - exists []. reflexivity.
+Qed.
+Lemma strip_closed x : top_closed x = true -> strip x = x.
+Proof. destruct x as [|c x]; [reflexivity|]. cbn [top_closed strip]. destruct (bsend c); [discriminate|reflexivity]. Qed.
+Lemma strip_length x : (length (strip x) <= length x)%nat.
+Proof. destruct (strip_suffix x) as [d E]. rewrite E at 2. rewrite app_length. lia. Qed.
+
+Lemma linked_last_prev pend s d : pend <> [] -> linked (pend ++ s) -> prev_of (last pend d) = frontier_id s.
+Proof.
+  induction pend as [|x p IH]; intros Hne Hl; [congruence|].
+  destruct p as [|y p].
+  - cbn [last app] in *. destruct Hl as [Hp _]. exact Hp.
+  - change (last (x :: y :: p) d) with (last (y :: p) d). apply IH; [discriminate|].
+    cbn [app] in Hl. destruct Hl as [_ [_ Hl]]. exact Hl.
+Qed.
+
+Lemma readd_spec l : forall pend s, linked (rev l ++ pend ++ s) -> Forall (fun b => bsend b = true) pend ->
+  readd s pend l = Some (strip (rev l ++ pend) ++ s).
+Proof.
+  induction l as [|b l IH]; intros pend s H Hp.
+  - cbn [rev app readd]. rewrite (strip_sends _ Hp). reflexivity.
+  - cbn [readd]. destruct (bsend b) eqn:Eb.
+    + rewrite IH.
+      * cbn [rev]. rewrite <- app_assoc. reflexivity.
+      * cbn [rev] in H. rewrite <- app_assoc in H. exact H.
+      * constructor; assumption.
+    + assert (Hprev : prev_of (last pend b) = frontier_id s).
+      { cbn [rev] in H. rewrite <- app_assoc in H. apply linked_app in H. cbn [app] in H.
+        destruct pend as [|x p].
+        - cbn [last app] in *. destruct H as [Hb _]. exact Hb.
+        - destruct H as [_ [_ H]]. apply linked_last_prev; [discriminate|exact H]. }
+      replace (ident_eqb (prev_of (last pend b)) (frontier_id s)) with true by (symmetry; apply ident_eqb_eq; exact Hprev).
+      rewrite IH.
+      * rewrite app_nil_r. cbn [rev]. rewrite <- app_assoc. cbn [app].
+        rewrite (strip_app_closed (rev l) b pend Eb). rewrite <- app_assoc. reflexivity.
+      * cbn [rev app] in *. rewrite <- app_assoc in H. cbn [app] in H. exact H.
+      * constructor.
 Qed.
 
 Lemma filter_all {A} (f : A -> bool) l : Forall (fun x => f x = true) l -> filter f l = l.
@@ -227,8 +272,10 @@ Proof. induction 1 as [|x l Hx Hl IH]; [reflexivity|]. cbn [filter]. rewrite Hx,
 Lemma filter_none {A} (f : A -> bool) l : Forall (fun x => f x = false) l -> filter f l = [].
 Proof. induction 1 as [|x l Hx Hl IH]; [reflexivity|]. cbn [filter]. rewrite Hx, IH. reflexivity. Qed.
 
-Lemma rebuild_split pre ns n : linked (pre ++ ns) ->
-  rebuild ns (mkAcct (pre ++ ns) n) = Some (mkAcct (pre ++ ns) (length ns)).
+Lemma rebuild_spec pre ns n : linked (pre ++ ns) ->
+  rebuild ns (mkAcct (pre ++ ns) n) =
+  if negb (top_closed ns) && existsb (fun b => negb (bsend b)) (rev pre) then None
+  else Some (mkAcct (strip pre ++ ns) (length ns)).
 Proof.
   intros Hl. unfold rebuild. cbn [rchain].
   pose proof (linked_app _ _ Hl) as Hns. rewrite (linked_height _ Hns).
@@ -237,23 +284,34 @@ Proof.
   2:{ apply Forall_rev. eapply Forall_impl; [|apply linked_heights_le; exact Hns]. cbn. intros x Hx. lia. }
   rewrite (filter_all _ (rev pre)).
   2:{ apply Forall_rev. eapply Forall_impl; [|apply linked_heights_gt with (y := ns); exact Hl]. cbn. intros x Hx. lia. }
-  cbn [app]. rewrite readd_linked by (rewrite rev_involutive; exact Hl). rewrite rev_involutive. reflexivity.
+  cbn [app]. destruct (negb (top_closed ns) && existsb (fun b => negb (bsend b)) (rev pre)); [reflexivity|].
+  rewrite readd_spec.
+  - rewrite rev_involutive, app_nil_r. reflexivity.
+  - rewrite rev_involutive. cbn [app]. exact Hl.
+  - constructor.
 Qed.
 
-(* after a momentum that confirms the next k pooled blocks: the manager is rebuilt without error and holds exactly the
-   same chain; the pool is the previous pool minus the k confirmed blocks *)
-Lemma rebuild_exact a k : wf a -> (sh a + k <= length (rchain a))%nat ->
+Lemma top_closed_app pre ns : top_closed (pre ++ ns) = true -> pre <> [] -> top_closed pre = true.
+Proof. destruct pre as [|c pre]; [congruence|]. cbn [app top_closed]. auto. Qed.
+
+(* after a momentum that confirms the next k pooled blocks (whole batches of a chain of whole batches): the manager is
+   rebuilt without error and holds exactly the same chain; the pool is the previous pool minus the k confirmed blocks *)
+Lemma rebuild_exact a k : wf a -> (sh a + k <= length (rchain a))%nat -> aligned a k ->
   step a (OMomentum k) = (mkAcct (rchain a) (sh a + k), ROk) /\
   pooled (mkAcct (rchain a) (sh a + k)) = firstn (length (pooled a) - k) (pooled a) /\
   confirmed (mkAcct (rchain a) (sh a + k)) = skipn (length (pooled a) - k) (pooled a) ++ confirmed a.
 Proof.
-  intros [Hl Hs] Hk. split.
+  intros [Hl Hs] Hk [Ha1 Ha2]. split.
   - cbn [step]. replace (length (rchain a) <? sh a + k)%nat with false by lia.
-    set (m := (length (rchain a) - (sh a + k))%nat).
+    set (m := (length (rchain a) - (sh a + k))%nat) in *.
     pose proof (firstn_skipn m (rchain a)) as Hsplit.
     assert (E : rebuild (skipn m (rchain a)) a = Some (mkAcct (rchain a) (sh a + k))).
-    { destruct a as [rc n]. cbn [rchain sh] in *. rewrite <- Hsplit at 2. rewrite rebuild_split by (rewrite Hsplit; exact Hl).
-      rewrite Hsplit. f_equal. f_equal. rewrite skipn_length. lia. }
+    { destruct a as [rc n]. cbn [rchain sh] in *. rewrite <- Hsplit at 2. rewrite rebuild_spec by (rewrite Hsplit; exact Hl).
+      rewrite Ha2. cbn [negb andb].
+      assert (Hst : strip (firstn m rc) = firstn m rc).
+      { destruct (firstn m rc) as [|c pre]; [reflexivity|].
+        apply strip_closed. apply (top_closed_app (c :: pre) (skipn m rc)); [rewrite Hsplit; exact Ha1|discriminate]. }
+      rewrite Hst, Hsplit. f_equal. f_equal. rewrite skipn_length. lia. }
     rewrite E. reflexivity.
   - unfold pooled, confirmed. cbn [rchain sh]. split.
     + rewrite firstn_length. rewrite firstn_firstn. f_equal. lia.
@@ -269,18 +327,51 @@ Qed.
 Lemma skipn_linked rc n : linked rc -> linked (skipn n rc).
 Proof. intros H. rewrite <- (firstn_skipn n rc) in H. apply linked_app in H. exact H. Qed.
 
+(* whatever the momentum confirmed (also a part of a batch: the rebuild then fails and the account's pool is dropped):
+   the account after it is the new confirmed chain with a part of the old pool on top *)
+Lemma momentum_shape a k : wf a -> (sh a + k <= length (rchain a))%nat ->
+  let ns := skipn (length (rchain a) - (sh a + k)) (rchain a) in
+  exists x, fst (step a (OMomentum k)) = mkAcct (x ++ ns) (sh a + k) /\ linked (x ++ ns) /\
+            (length (x ++ ns) <= length (rchain a))%nat /\ length ns = (sh a + k)%nat /\
+            (snd (step a (OMomentum k)) = ROk \/ (snd (step a (OMomentum k)) = RErrPop /\ top_closed ns = false)).
+Proof.
+  intros [Hl Hs] Hk. cbv zeta. cbn [step]. replace (length (rchain a) <? sh a + k)%nat with false by lia.
+  set (m := (length (rchain a) - (sh a + k))%nat).
+  pose proof (firstn_skipn m (rchain a)) as Hsplit.
+  assert (Hlen : length (skipn m (rchain a)) = (sh a + k)%nat) by (rewrite skipn_length; lia).
+  assert (E : rebuild (skipn m (rchain a)) a = rebuild (skipn m (rchain a)) (mkAcct (firstn m (rchain a) ++ skipn m (rchain a)) (sh a))).
+  { rewrite Hsplit. destruct a; reflexivity. }
+  rewrite E, rebuild_spec by (rewrite Hsplit; exact Hl).
+  destruct (negb (top_closed (skipn m (rchain a))) && existsb (fun b => negb (bsend b)) (rev (firstn m (rchain a)))) eqn:G.
+  - exists []. cbn [fst snd app]. repeat split; try assumption.
+    + apply skipn_linked. exact Hl.
+    + rewrite skipn_length. lia.
+    + right. split; [reflexivity|]. apply andb_prop in G. destruct G as [G _]. destruct (top_closed (skipn m (rchain a))); [discriminate|reflexivity].
+  - exists (strip (firstn m (rchain a))). cbn [fst snd]. rewrite Hlen. repeat split; try assumption.
+    + destruct (strip_suffix (firstn m (rchain a))) as [d Ed].
+      rewrite <- Hsplit in Hl. rewrite Ed, <- app_assoc in Hl. apply linked_app in Hl. exact Hl.
+    + assert (Hsum : (length (rchain a) = length (firstn m (rchain a)) + length (skipn m (rchain a)))%nat)
+        by (rewrite <- app_length, Hsplit; reflexivity).
+      rewrite app_length. pose proof (strip_length (firstn m (rchain a))). lia.
+    + left. reflexivity.
+Qed.
+
 (* ------------------------------------------------------------ every operation keeps the invariant *)
+(* the rebuild after a momentum fails only when the momentum confirmed a part of a batch (the account's pool is dropped) *)
 Lemma step_wf a o : wf a -> wf_op o -> Z.of_nat (length (rchain a)) < two63 ->
   wf (fst (step a o)) /\ (length (rchain (fst (step a o))) <= S (length (rchain a)))%nat /\
-  snd (step a o) <> RPanic /\ snd (step a o) <> RErrPop.
+  snd (step a o) <> RPanic /\ (snd (step a o) = RErrPop -> exists k, o = OMomentum k /\ ~ aligned a k).
 Proof.
   intros Hwf Ho Hlen. destruct o as [force b|k|j].
   - cbn [step]. destruct (add force a b) as [a' r] eqn:E.
-    destruct (add_spec force a b a' r Hwf Ho Hlen E) as [H1 [_ [_ [H4 [H5 [H6 _]]]]]]. cbn [fst snd]. auto.
+    destruct (add_spec force a b a' r Hwf Ho Hlen E) as [H1 [_ [_ [H4 [H5 [H6 _]]]]]]. cbn [fst snd].
+    split; [exact H1|]. split; [exact H6|]. split; [exact H4|]. intros Hr. exfalso. exact (H5 Hr).
   - destruct (Nat.ltb_spec (length (rchain a)) (sh a + k)) as [Hlt|Hge].
     + cbn [step]. replace (length (rchain a) <? sh a + k)%nat with true by lia. cbn [fst snd]. repeat split; try discriminate; try lia; apply Hwf.
-    + destruct (rebuild_exact a k Hwf Hge) as [E _]. rewrite E. cbn [fst snd rchain sh]. destruct Hwf as [Hl Hs].
-      repeat split; try discriminate; try lia; assumption.
+    + destruct (momentum_shape a k Hwf Hge) as [x [E [L [Hle [Hn Hr]]]]]. rewrite E. cbn [rchain sh].
+      split; [split; [exact L|cbn [rchain sh]; rewrite app_length; lia]|]. split; [lia|].
+      destruct Hr as [Hr|[Hr Hc]]; rewrite Hr; split; try discriminate.
+      intros _. exists k. split; [reflexivity|]. intros [_ A2]. congruence.
   - cbn [step]. destruct (sh a <? j)%nat eqn:E; cbn [fst snd rchain sh].
     + repeat split; try discriminate; try lia; apply Hwf.
     + destruct Hwf as [Hl Hs].
@@ -315,7 +406,13 @@ Proof.
     destruct (add_spec force a b a' r Hwf Ho Hlen E) as [_ [_ [H3 _]]]. exact H3.
   - destruct (Nat.ltb_spec (length (rchain a)) (sh a + k)) as [Hlt|Hge].
     + cbn [step]. replace (length (rchain a) <? sh a + k)%nat with true by lia. exists []. reflexivity.
-    + destruct (rebuild_exact a k Hwf Hge) as [E [_ Hc]]. rewrite E. cbn [fst]. eexists. exact Hc.
+    + destruct (momentum_shape a k Hwf Hge) as [x [E [_ [_ [Hn _]]]]]. rewrite E.
+      set (ns := skipn (length (rchain a) - (sh a + k)) (rchain a)) in *.
+      unfold confirmed at 1. cbn [rchain sh].
+      assert (Hx : (length (x ++ ns) - (sh a + k) = length x)%nat) by (rewrite app_length; lia).
+      rewrite Hx, skipn_app, skipn_all, Nat.sub_diag. cbn [app skipn].
+      exists (firstn k ns). rewrite <- (firstn_skipn k ns) at 1.
+      f_equal. unfold confirmed, ns. rewrite skipn_add. f_equal. destruct Hwf as [_ Hs]. lia.
   - cbn [step]. destruct (sh a <? j)%nat eqn:E; cbn [fst].
     + exists []. reflexivity.
     + unfold confirmed. cbn [rchain sh]. destruct Hwf as [Hl Hs].
@@ -444,20 +541,91 @@ Qed.
 (* the insert notification of a momentum that confirmed nothing of this account — also the notification the chain sends
    for a momentum the versioned store did not apply (own momentum inserted after a competing one at the same height):
    the rebuild succeeds and account, confirmed part and pool are what they were *)
-Lemma unapplied_momentum_identity a : wf a ->
+Lemma unapplied_momentum_identity a : wf a -> aligned a 0 ->
   step a (OMomentum 0) = (a, ROk).
 Proof.
-  intros Hwf. pose proof Hwf as [_ Hs].
+  intros Hwf Hal. pose proof Hwf as [_ Hs].
   assert (Hk : (sh a + 0 <= length (rchain a))%nat) by lia.
-  destruct (rebuild_exact a 0 Hwf Hk) as [H _]. rewrite H.
+  destruct (rebuild_exact a 0 Hwf Hk Hal) as [H _]. rewrite H.
   destruct a as [rc s]. cbn [rchain sh]. rewrite Nat.add_0_r. reflexivity.
 Qed.
 
 (* whatever a momentum the store did not apply lists as its content: after any number of such notifications between two
    operations the history behaves as without them *)
-Lemma unapplied_momentums_no_trace a n ops : wf a ->
+Lemma unapplied_momentums_no_trace a n ops : wf a -> aligned a 0 ->
   run a (repeat (OMomentum 0) n ++ ops) = run a ops.
 Proof.
-  intros Hwf. induction n as [|n IH]; [reflexivity|].
-  cbn [repeat app run]. rewrite (unapplied_momentum_identity a Hwf). cbn [fst]. exact IH.
+  intros Hwf Hal. induction n as [|n IH]; [reflexivity|].
+  cbn [repeat app run]. rewrite (unapplied_momentum_identity a Hwf Hal). cbn [fst]. exact IH.
+Qed.
+
+(* ------------------------------------------------------------ replacement: exactly the suffix from the competitor's height *)
+(* an accepted block (fast-forward, or the winner of a competition / a forced block at an occupied unconfirmed height)
+   sits on the chain below its height, which is untouched: what is dropped is exactly the blocks from its height up, all of
+   them unconfirmed *)
+Lemma add_replaces_suffix force a b a' : wf a -> in_u64 (bheight b) -> Z.of_nat (length (rchain a)) < two63 ->
+  add force a b = (a', ROk) ->
+  exists dropped below, rchain a = dropped ++ below /\ rchain a' = b :: below /\ frontier_id below = prev_of b /\
+    (length dropped <= length (rchain a) - sh a)%nat /\ Forall (fun x => bheight b <= bheight x) dropped.
+Proof.
+  intros Hwf Hu Hlen Hadd. pose proof Hwf as [Hl Hs]. unfold add in Hadd.
+  destruct (ident_eqb (prev_of b) (frontier_id (rchain a))) eqn:Eff.
+  - apply ident_eqb_eq in Eff. inversion Hadd; subst. exists [], (rchain a). cbn [app rchain length].
+    repeat split; [symmetry; exact Eff|lia|constructor].
+  - pose proof (stable_height_is_sh a Hwf) as Hsh.
+    destruct (by_height (rchain a) (bheight b)) as [t|] eqn:Et.
+    + destruct (ident_eqb (id_of t) (id_of b)); [discriminate|].
+      destruct (bheight b <=? stable_height a) eqn:Eold; [discriminate|].
+      destruct (by_height (rchain a) (u64 (bheight b - 1))) as [p|] eqn:Ep; [|discriminate].
+      destruct (ident_eqb (id_of p) (prev_of b)) eqn:Epp; cbn [negb] in Hadd; [|discriminate].
+      apply ident_eqb_eq in Epp.
+      destruct (negb force && negb (higher_priority b t =? 0)) eqn:Epr.
+      { destruct (higher_priority b t =? 1); discriminate. }
+      pose proof (by_height_some _ _ _ Ep) as [Hinp Hhp].
+      pose proof (linked_heights_le _ Hl) as Hf. rewrite Forall_forall in Hf. pose proof (Hf p Hinp) as Hpr.
+      assert (Hb1 : bheight b - 1 = bheight p) by (unfold in_u64, u64, two63, two64 in *; lia).
+      destruct (pop_until_spec (rchain a) (sh a) (u64 (bheight b - 1)) p Hl Ep ltac:(lia)) as [pre [r' [E1 [E2 [E3 E4]]]]].
+      rewrite <- Epp, E2 in Hadd. inversion Hadd; subst a'. clear Hadd.
+      exists pre, r'. cbn [rchain]. split; [exact E1|]. split; [reflexivity|]. split; [rewrite E3; exact Epp|]. split.
+      * rewrite E1, app_length. lia.
+      * rewrite E1 in Hl. eapply Forall_impl; [|apply linked_heights_gt with (y := r'); exact Hl]. cbn. intros x Hx. lia.
+    + destruct (bheight b <=? stable_height a); [discriminate|].
+      destruct (by_height (rchain a) (u64 (bheight b - 1))) as [p|]; [|discriminate].
+      destruct (negb (ident_eqb (id_of p) (prev_of b))); discriminate.
+Qed.
+
+(* ------------------------------------------------------------ the content as the pool composes it *)
+(* accountPool.GetNewMomentumContent = filterBlocksToCommit (GetAllUncommittedAccountBlocks ()): ONE walk over the
+   concatenation of the accounts' pooled chains (ascending), in the order the map of managers yields the accounts *)
+Definition new_momentum_content (chains : list (list block)) : list block := filter_to_commit (concat chains).
+
+Lemma ends_batch_app_r x p : p <> [] -> ends_batch (x ++ p) -> ends_batch p.
+Proof.
+  intros Hp. unfold ends_batch. rewrite rev_app_distr.
+  destruct (rev p) as [|c q] eqn:E; [|cbn [app]; auto].
+  exfalso. apply Hp. rewrite <- (rev_involutive p), E. reflexivity.
+Qed.
+
+Lemma prefix_of_concat (chains : list (list block)) : forall r rest0, concat chains = r ++ rest0 ->
+  exists j p rest, r = concat (firstn j chains) ++ p /\ nth j chains [] = p ++ rest.
+Proof.
+  induction chains as [|c cs IH]; intros r rest0 H.
+  - cbn [concat] in H. symmetry in H. apply app_eq_nil in H. destruct H as [-> ->]. exists 0%nat, [], []. split; reflexivity.
+  - cbn [concat] in H. apply app_eq_app in H. destruct H as [l [[E1 E2]|[E1 E2]]].
+    + (* c = r ++ l: the cut is inside (or at the end of) this account *)
+      exists 0%nat, r, l. cbn [firstn concat app nth]. split; [reflexivity|exact E1].
+    + destruct (IH l rest0 E2) as [j [p [rest [Hr Hn]]]].
+      exists (S j), p, rest. cbn [firstn concat nth]. split; [|exact Hn]. rewrite E1, Hr, app_assoc. reflexivity.
+Qed.
+
+(* whatever the order of the accounts: the content consists of the complete pooled chains of some accounts and a prefix
+   of the chain of one more account which ends where a batch ends - no account's batch is split - and respects the limit *)
+Lemma content_per_account chains :
+  exists j p rest, new_momentum_content chains = concat (firstn j chains) ++ p /\ nth j chains [] = p ++ rest /\ ends_batch p /\
+    Z.of_nat (length (new_momentum_content chains)) <= MaxAccountBlocksInMomentum.
+Proof.
+  unfold new_momentum_content. destruct (filter_batches (concat chains)) as [[rest0 [Hpre _]] [Hlen Hend]]. cbv zeta in *.
+  destruct (prefix_of_concat chains _ _ Hpre) as [j [p [rest [Hr Hn]]]].
+  exists j, p, rest. split; [exact Hr|]. split; [exact Hn|]. split; [|exact Hlen].
+  destruct p as [|c p]; [exact I|]. rewrite Hr in Hend. eapply ends_batch_app_r; [discriminate|exact Hend].
 Qed.
